@@ -4,6 +4,7 @@
     reset
     new e <id> <qn> | new t <id> | new c <id>
     mkdoc <topnode id>
+    clear | rebuild                 (the public doc.clear_caches() / doc.rebuild_caches())
     append <p> <c> | insb <p> <new> <ref|-> | rm <p> <c>
     adde <p> <c> <allowed01> | addt <p> <t> <allowsText01> <nonempty01> | addc <p> <t> <allowsText01>
     setns <e> <key> <conv>          conv = o<val> | e<Enum>
@@ -67,6 +68,10 @@ def handle (st : St) (line : String) : St × String :=
     | "t", some i => exec st [i] (stepD (.tree (.newNode i .text 0)))
     | "c", some i => exec st [i] (stepD (.tree (.newNode i .cdata 0)))
     | _, _ => bad
+  | ["clear"] =>      -- doc.clear_caches()
+    exec st [] (updD fun s => { s with edict := [], sdict := [], fix := [] })
+  | ["rebuild"] =>    -- doc.rebuild_caches()
+    exec st [] rebuildAll
   | ["mkdoc", t] =>
     match t.toNat? with
     | some t => exec st [] (stepD (.mkDoc t))
